@@ -43,11 +43,11 @@ def job(seed):
     # more properties than the generic generator gives
     for t in spec['tables']:
         if rng.random() < 0.5:
-            t['props'] = [[k, rng.choice(['v', 'two words', "it's", 'x:y', 'a,b', '[b]', 'line1\n  line2', '\n    indented\n    block\n', '  lead'])]
+            t['props'] = [[k, rng.choice(['v', 'two words', "it's", 'x:y', 'a,b', '[b]', '', '0', 'line1\n  line2', '\n    indented\n    block\n', '  lead'])]
                           for k in rng.sample(['owner', 'team', 'k', 'label', 'zz'], rng.randint(1, 3))]
         for c in t['columns']:
             if rng.random() < 0.35:
-                c['props'] = [[k, rng.choice(['v', 'two words', "it's", 'x]y', 'a,b', 'l1\n  l2', '  lead'])] for k in rng.sample(['label', 'k', 'zz', 'fmt', 'owner'], rng.randint(1, 2))]
+                c['props'] = [[k, rng.choice(['v', 'two words', "it's", 'x]y', 'a,b', '', '0', 'l1\n  l2', '  lead'])] for k in rng.sample(['label', 'k', 'zz', 'fmt', 'owner'], rng.randint(1, 2))]
     if rng.random() < 0.3:
         spec = strip_props(spec)
     from harness.props.c02 import make_expressible
